@@ -3,6 +3,76 @@ package main
 import "time"
 
 var props = map[string]propCfg{
+	"C01": {
+		Level: "exploration",
+		Rule: "rapid-generated declarations with Async providers x provider-granular schedules owned by the check inside a testing/synctest bubble (starve(P) for every needed provider, FIFO, LIFO, drawn choice lists) plus free-running -race executions with drawn latency vectors; oracle: exit(P) precedes enter(Q) for every model edge, every call carries exactly the argument hashes the reference model predicts, result equals reference, no race report touching *_band.go. non-trivial = emitted function has >=2 threads and >=1 cross-thread wait (measured on the emitted file); distinct = case hash",
+		Assumptions: []string{"schedules are owned at provider granularity; interleavings between two statements of emitted code are reached only by repetition and the -race runs", "free-running recorder uses unsynchronised per-provider slots so it adds no happens-before edges"},
+		QuickShards: 16, QuickChecks: 10, ThoroughShards: 16, ThoroughChecks: 150,
+		QuickBudget: 80 * time.Second, ThoroughBudget: 10 * time.Minute,
+	},
+	"C03": {
+		Level: "exploration",
+		Rule: "as C01 (fault-free plans: starve(P) for every provider, FIFO, LIFO, hold-async, drawn choices); oracle: controller never reaches 'injector not returned and nothing runnable' (exact quiescence via synctest.Wait, no timeouts), no panic / close of closed channel, no provider or goroutine of the emitted file alive at return, no goroutine blocked after return; plus structural invariants of the emitted function (eg.Wait before the final return, every completion channel closed at exactly one site and waited for). non-trivial = >=2 threads",
+		Assumptions: []string{"liveness is decided as safety at quiescence: with every provider released and every goroutine durably blocked, 'has not returned' is final"},
+		QuickShards: 16, QuickChecks: 12, ThoroughShards: 16, ThoroughChecks: 200,
+		QuickBudget: 80 * time.Second, ThoroughBudget: 10 * time.Minute,
+	},
+	"C05": {
+		Level: "exploration",
+		Rule: "rapid-generated declarations with several input-free Async providers among other Async/sync providers and arguments, declaration order permuted; schedule policy hold-async (only non-Async providers are released) constructs the witness: at the first quiescent state where only Async providers are inside their functions, ALL needed input-free Async providers must be among them. non-trivial = >=2 needed input-free Async providers and >=1 other needed unit",
+		Assumptions: []string{"the constructed quiescent state is itself the required execution (existential decided constructively per program)"},
+		QuickShards: 16, QuickChecks: 14, ThoroughShards: 16, ThoroughChecks: 250,
+		QuickBudget: 80 * time.Second, ThoroughBudget: 10 * time.Minute,
+	},
+	"C06": {
+		Level: "fault_enumeration",
+		Rule: "rapid-generated declarations with fallible providers x fault sets (every single needed fallible provider, drawn pairs, all) x schedules (FIFO, LIFO, starve(failing), drawn) x repetitions (select tie-breaks); oracle: injector returns, error non-nil and identical to an error a provider actually returned in that run, no provider downstream of a failed one entered. non-trivial = failing provider in a multi-thread injector or >=2 providers failed",
+		Assumptions: []string{"single-fault enumeration per needed fallible provider is complete per generated program; multi-fault sets are sampled"},
+		QuickShards: 16, QuickChecks: 10, ThoroughShards: 16, ThoroughChecks: 150,
+		QuickBudget: 80 * time.Second, ThoroughBudget: 10 * time.Minute,
+	},
+	"C07": {
+		Level: "fault_enumeration",
+		Rule: "rapid-generated declarations with >=1 Async provider x cancellation before the call and after every release of FIFO/LIFO/drawn schedules x repetitions; every gated provider keeps being released ('every provider returns'); oracle: injector returns (exact quiescence), and whenever it reports no error the value equals the reference. non-trivial = cancellation while >=1 provider is running and >=1 thread is blocked in one of the injector's waits",
+		Assumptions: []string{"cancellation points are provider-granular (between releases)"},
+		QuickShards: 16, QuickChecks: 8, ThoroughShards: 16, ThoroughChecks: 120,
+		QuickBudget: 80 * time.Second, ThoroughBudget: 10 * time.Minute,
+	},
+	"C08": {
+		Level: "fault_enumeration",
+		Rule: "C06 fault plans + C07 cancellation plans + fault-free plans; after the injector returns every still-running provider is released, quiescence is reached and goroutine stacks of the bubble are inspected: none may remain blocked in the emitted file. non-trivial = injector returned early (error) while another thread was still alive",
+		Assumptions: []string{"'will exit without further action by the caller' = exits once running providers return; the caller's context is NOT cancelled by the check"},
+		QuickShards: 16, QuickChecks: 8, ThoroughShards: 16, ThoroughChecks: 120,
+		QuickBudget: 80 * time.Second, ThoroughBudget: 10 * time.Minute,
+	},
+	"C04": {
+		Level: "exploration",
+		Rule: "rapid-generated declarations over the full type universe (named/pointer/basic/named-basic/slice/array/map/chan/func/anonymous struct/interface/external-package/aliased-import types) x naming adversary x sync/async x 1..4 injectors per file x 1..3 files per invocation (one CLI call or one per file); oracle = go/types type-check of user package + emitted files (unused/undeclared/redeclared identifiers and imports, type mismatches); only errors located in or caused by *_band.go count. non-trivial = >=2 injectors or composite/external/adversarial names; distinct = case hash",
+		Assumptions: []string{"go/types accepts exactly what the compiler accepts for these programs (cross-checked with go vet in the thorough tier)", "alias types and dot imports are outside the generated universe"},
+		QuickShards: 16, QuickChecks: 60, ThoroughShards: 16, ThoroughChecks: 1500,
+		QuickBudget: 75 * time.Second, ThoroughBudget: 9 * time.Minute,
+	},
+	"C09": {
+		Level: "exploration",
+		Rule: "valid rapid-generated declarations, 65% of them with exactly one planted defect (back edge of any length through plain/Bind/Struct-field/second-result, duplicate supplier via provider/Value/Struct field/Bind, orphan Struct) at a drawn position, x prior state of the output file (absent/older output/unrelated content with old mtime), one CLI call over all files; oracle: invalid => exit!=0, diagnostic names only types on the planted SCC / the duplicated / orphan type, offending output file byte- and mtime-identical; valid => exit 0 and exactly one function per declaration. non-trivial = plant not adjacent to the requested provider or routed through Bind/field/second result or in a later file; valid cases with >=2 injectors or prior output",
+		Assumptions: []string{"the reference model decides validity (cycle/duplicate/orphan) independently of graph.go", "the same provider reached twice through two Sets is generated neither as valid nor invalid"},
+		QuickShards: 16, QuickChecks: 70, ThoroughShards: 16, ThoroughChecks: 2000,
+		QuickBudget: 75 * time.Second, ThoroughBudget: 9 * time.Minute,
+	},
+	"C10": {
+		Level: "exploration",
+		Rule: "rapid-generated valid declarations stressing context.Context parameters at any position, duplicate parameter types, unneeded Async/fallible providers, composite/external argument types, several injectors; oracle = go/types signature of the emitted function vs the reference rule (name, parameter multiset by types.Identical, context rule and position, result, error result). non-trivial = >=1 argument and (context involved or an unneeded Async/fallible provider present)",
+		Assumptions: []string{"reference signature rule is derived from the property statement", "cases whose output does not type-check are routed to C04 and counted as discards"},
+		QuickShards: 16, QuickChecks: 60, ThoroughShards: 16, ThoroughChecks: 1500,
+		QuickBudget: 75 * time.Second, ThoroughBudget: 9 * time.Minute,
+	},
+	"C02": {
+		Level: "exploration",
+		Rule: "rapid-generated Inject declarations (forward-constructed acyclic provider DAGs over a generated type universe; Bind, Struct expansion, multi-value providers, Value, nested/inline/shared Sets, unneeded providers, literal and external-package providers, several injectors/files) executed through the real CLI's output under FIFO/LIFO/drawn schedules with two argument vectors; oracle = independent sequential reference interpreter (value hash and multiset of (provider, argument hashes) calls). non-trivial = injector with >=3 needed units and at least one of Bind/Struct/multi-value/Value/Set nesting>=2/unneeded provider; distinct = hash of the whole case",
+		Assumptions: []string{"values are observed through 31-bit hashes (types narrower than 31 bits are compared after squashing)", "features that trigger known findings of C04/C09 are gated off and counted under excluded_by_construction"},
+		QuickShards: 16, QuickChecks: 14, ThoroughShards: 16, ThoroughChecks: 300,
+		QuickBudget: 75 * time.Second, ThoroughBudget: 9 * time.Minute,
+	},
 	"C16": {
 		Level: "exploration",
 		Rule: "agent x flag-form x prior-state x umask matrix enumerated, plus rapid-drawn install histories (several agents into one HOME/cwd); expected paths parsed from README.md, expected tree read from internal/llmsetup/skills on disk; non-trivial = run whose destination had a prior state other than 'absent', or a history of >=2 installs, or a --path form; distinct = hash of (agent, flags, prior, umask, history)",
